@@ -46,7 +46,9 @@ P(name, s, r) == [name |-> name, schema |-> s, req |-> r]
 Addls == { [addlK |-> ""], [addlK |-> "any"], [addlK |-> "schema", addl |-> Sc("string", FALSE)], [addlK |-> "schema", addl |-> Sc("int64", FALSE)],
            [addlK |-> "schema", addl |-> Sc("int64", TRUE)], [addlK |-> "schema", addl |-> Sc("string", TRUE)],
            \* map values that are objects with optional properties (entries must not influence each other) and arrays
-           [addlK |-> "schema", addl |-> Ref("PoolC")], [addlK |-> "schema", addl |-> Ref("PoolA")], [addlK |-> "schema", addl |-> Arr(Sc("int64", FALSE))] }
+           [addlK |-> "schema", addl |-> Ref("PoolC")], [addlK |-> "schema", addl |-> Ref("PoolA")], [addlK |-> "schema", addl |-> Arr(Sc("int64", FALSE))],
+           \* map values declared inline as an object (representative of the open finding codec-addl-inline-composite)
+           [addlK |-> "schema", addl |-> [k |-> "object", nullable |-> FALSE, props |-> << [name |-> "extra", schema |-> Sc("string", FALSE), req |-> TRUE], [name |-> "more", schema |-> Sc("int32", FALSE), req |-> FALSE] >>, addlK |-> ""]] }
 Obj(props, ad) == [k |-> "object", nullable |-> FALSE, props |-> props] @@ ad
 Objects == { Obj(<< >>, ad) : ad \in Addls }
            \cup { Obj(<< P("alpha", s, r) >>, ad) : s \in PropSchemas, r \in BOOLEAN, ad \in Addls }
